@@ -73,26 +73,29 @@ def splitFirst (sep : Char) (s : Str) : Option (Str × Str) :=
   | (_, []) => none
   | (a, _ :: b) => some (a, b)
 
-/-- `html.EscapeString`: the five characters, `'` ↦ `&#39;`, `"` ↦ `&#34;`. -/
+/-- `html.EscapeString`: the five markup characters, `'` ↦ `&#39;`, `"` ↦ `&#34;`, and the carriage return ↦ `&#13;` (a raw CR would be
+    read back as a line feed). -/
 def escChar (c : Char) : Str :=
   if c == '&' then ['&','a','m','p',';']
   else if c == '<' then ['&','l','t',';']
   else if c == '>' then ['&','g','t',';']
   else if c == '"' then ['&','#','3','4',';']
   else if c == '\'' then ['&','#','3','9',';']
+  else if c == '\r' then ['&','#','1','3',';']
   else [c]
 
 def escape : Str → Str
   | [] => []
   | c :: s => escChar c ++ escape s
 
-/-- Inverse of `escape` on its image: decodes exactly the five references `escape` can emit. -/
+/-- Inverse of `escape` on its image: decodes exactly the six references `escape` can emit. -/
 def unescape : Str → Str
   | '&' :: 'a' :: 'm' :: 'p' :: ';' :: r => '&' :: unescape r
   | '&' :: 'l' :: 't' :: ';' :: r => '<' :: unescape r
   | '&' :: 'g' :: 't' :: ';' :: r => '>' :: unescape r
   | '&' :: '#' :: '3' :: '4' :: ';' :: r => '"' :: unescape r
   | '&' :: '#' :: '3' :: '9' :: ';' :: r => '\'' :: unescape r
+  | '&' :: '#' :: '1' :: '3' :: ';' :: r => '\r' :: unescape r
   | c :: r => c :: unescape r
   | [] => []
 
